@@ -1,7 +1,9 @@
 (** C06 — Write-back cache: nothing reaches the remote before Commit, everything after.
     Statements only.  [cview c] is the plain tree seen through the cache (the remote with the
     pending operations applied); [vlookup c] its lookup function. *)
-From GC Require Import Common.Base Model.Paths Model.Fs Model.Cache Proofs.Fs Proofs.Cache.
+From GC Require Import Common.Base Model.Paths Model.Fs Model.Cache Model.CacheDirect Proofs.Fs Proofs.Cache
+  Proofs.C06More.
+From Coq Require Import Permutation.
 
 (** While operations are applied to a cache, the remote filespace is not modified at all —
     every one of the 16 operations, any raw arguments, any state. *)
@@ -124,3 +126,144 @@ Example C06_ex :
   let l := [COp (ORemoveAll [100]); COp (OWriteFile [100;47;121] [50]); CCommit] in  (* rm -r d; write d/y = "2"; commit *)
   cR (run_cache (new_cache r) l) = [([[100]], D); ([[100]; [121]], F [50])].
 Proof. vm_compute. reflexivity. Qed.
+
+(** ** Second layer (proof audit): the view IS the initial remote with the successful operations
+    applied directly, along whole histories with failing Commits.
+
+    [direct_step] (Model/CacheDirect.v) applies one operation to a PLAIN TREE with the tree-level
+    operations of the memfs model (write_at, mkdir_all, remove_at, remove_all_at, and a copy that
+    merges directories and overwrites files).  Whenever the cache reports success, for each of the
+    16 operations on any raw arguments, the tree seen through the cache afterwards is that
+    operation applied directly to the tree seen before.  Supersedes the per-operation
+    [C06_view_write/mkdir/remove/remove_all/copy_dir], which describe the new view by lookups under
+    extra hypotheses and leave file copies and the frame of a directory copy unstated. *)
+Theorem C06_step_is_direct : forall c t o c',
+  Inv c -> WF t -> (forall q, lookup t q = vlookup c q) -> cache_step c (COp o) = (c', RUnit) ->
+  Inv c' /\ WF (direct_step t o) /\ forall q, lookup (direct_step t o) q = vlookup c' q.
+Proof. exact step_is_direct. Qed.
+Print Assumptions C06_step_is_direct.
+
+(** An operation that is not reported as successful leaves the cache exactly as it was - with one
+    exception, a copy whose source is a directory ... *)
+Theorem C06_failed_op_keeps_cache : forall c o,
+  snd (cache_step c (COp o)) <> RUnit -> dircopy_src c o = false -> fst (cache_step c (COp o)) = c.
+Proof. exact step_fail_keeps. Qed.
+Print Assumptions C06_failed_op_keeps_cache.
+
+(** ... for which the clause FAILS, in the model and in fscache alike (checked on the code: Copy
+    of d = {a, b/} onto e where e/b is a file returns an error, the view then shows e/a and the
+    next Commit writes e/a to the remote): the walk of a directory copy stops at the first entry
+    that cannot be created and keeps what it has copied.  The remote after Commit is then NOT the
+    initial tree with the successful operations applied. *)
+Theorem C06_failed_dircopy_partial_refuted :
+  let r := [([[100]], D); ([[100]; [97]], F [49]); ([[100]; [98]], D); ([[101]], D); ([[101]; [98]], F [50])] in
+  let c := new_cache r in
+  let c1 := fst (cache_step c (COp (OCopy [100] [101]))) in
+  WF r /\ snd (cache_step c (COp (OCopy [100] [101]))) = RErr /\
+  vlookup c [[101]; [97]] = None /\ vlookup c1 [[101]; [97]] = Some (F [49]) /\
+  exists c', c_commit c1 = (c', RUnit) /\ lookup (cR c') [[101]; [97]] = Some (F [49]).
+Proof. exact failed_dircopy_changes_view. Qed.
+Print Assumptions C06_failed_dircopy_partial_refuted.
+
+(** A Commit that failed, whatever it left on the remote ([partial_remote], or any remote the
+    executable [partial_ok] accepts), keeps the invariant and does not change what is seen through
+    the cache - so operations may go on before the retry. *)
+Theorem C06_failed_commit_keeps_view : forall c rp,
+  Inv c -> partial_remote c rp \/ partial_ok c rp = true ->
+  Inv (mkCache (cB c) rp (cT c)) /\ forall q, vlookup (mkCache (cB c) rp (cT c)) q = vlookup c q.
+Proof. exact failed_commit_keeps_view. Qed.
+Print Assumptions C06_failed_commit_keeps_view.
+
+(** Every position of the failure: any subset [T1] of the removals applied, or all of them and any
+    selection [l] of buffer entries sent in any order - the calls made so far succeeded and the
+    remote is a [partial_remote] (the hypothesis of the convergence theorems is met at every
+    position, in every consistent state). *)
+Theorem C06_commit_every_position : forall c T1 l,
+  Inv c -> incl T1 (cT c) -> (forall p e, In (p, e) l -> In (p, e) (cB c)) ->
+  partial_remote c (apply_tombs (cR c) T1) /\
+  exists rp, materialise (apply_tombs (cR c) (cT c)) l = Some rp /\ partial_remote c rp.
+Proof. exact commit_every_position. Qed.
+Print Assumptions C06_commit_every_position.
+
+(** Whole histories [hs] of operations [HOp], Commits [HCommit] and failed Commits [HFault rp]
+    that leave the remote as [rp], in any number and at any position, with operations between a
+    failure and the retry.  [hist_valid]: every [rp] is a [partial_remote] of the state it happened
+    in (or accepted by [partial_ok]) and no directory copy failed.  [succ_ops] are the operations
+    the cache reported as successful.  The tree seen through the cache is the INITIAL remote with
+    exactly those operations applied directly, in order ... *)
+Theorem C06_history_view_is_direct : forall r hs,
+  WF r -> hist_valid (new_cache r) hs ->
+  Inv (hrun (new_cache r) hs) /\
+  WF (direct_run r (succ_ops (new_cache r) hs)) /\
+  forall q, vlookup (hrun (new_cache r) hs) q = lookup (direct_run r (succ_ops (new_cache r) hs)) q.
+Proof. exact history_view_is_direct. Qed.
+Print Assumptions C06_history_view_is_direct.
+
+(** ... and the next Commit succeeds, clears the tombstones and leaves on the remote exactly that
+    tree: the same nodes with the same contents ([Permutation]: trees are compared as sets of
+    nodes).  Supersedes [C06_main] (which equates the remote with the view, not with the directly
+    computed tree) and extends [C06_commit_converges_after_failure/_from_observed] from one
+    failure followed at once by the retry to any number of failures with operations in between. *)
+Theorem C06_history_commit_is_direct : forall r hs,
+  WF r -> hist_valid (new_cache r) hs ->
+  exists c', c_commit (hrun (new_cache r) hs) = (c', RUnit) /\ cT c' = [] /\
+    (forall q, lookup (cR c') q = lookup (direct_run r (succ_ops (new_cache r) hs)) q) /\
+    Permutation (cR c') (direct_run r (succ_ops (new_cache r) hs)).
+Proof. exact history_commit_is_direct. Qed.
+Print Assumptions C06_history_commit_is_direct.
+
+(** The executable check of a history implies its validity. *)
+Theorem C06_hist_ok_valid : forall hs c, hist_ok c hs = true -> hist_valid c hs.
+Proof. exact hist_ok_valid. Qed.
+Print Assumptions C06_hist_ok_valid.
+
+(** Non-vacuity.  A directory copy that merges into an existing directory and overwrites a file:
+    reported as successful, and the direct operation on the view computes the tree below. *)
+Example C06_step_ex :
+  let c := run_cache (new_cache [([[100]], D); ([[100]; [97]], F [49]); ([[100]; [98]], D); ([[101]], D); ([[101]; [97]], F [50])])
+             [COp (OWriteFile [100;47;98;47;99] [51])] in                      (* d/a=1 d/b/ e/a=2; write d/b/c=3 *)
+  snd (cache_step c (COp (OCopy [100] [101]))) = RUnit /\ wf (cview c) = true /\    (* cp d e *)
+  direct_step (cview c) (OCopy [100] [101]) =
+    [([[100]; [97]], F [49]); ([[101]], D); ([[101]; [97]], F [49]); ([[100]], D); ([[100]; [98]], D);
+     ([[100]; [98]; [99]], F [51]); ([[101]; [98]], D); ([[101]; [98]; [99]], F [51])].
+Proof. vm_compute. repeat split. Qed.
+
+(** A failing operation that is not a directory copy (a write below a file). *)
+Example C06_failed_op_ex :
+  let c := new_cache [([[100]], D); ([[100]; [97]], F [49])] in
+  let o := OWriteFile [100;47;97;47;107] [51] in
+  snd (cache_step c (COp o)) = RErr /\ dircopy_src c o = false.
+Proof. vm_compute. split; reflexivity. Qed.
+
+(** A history with three failed Commits: rm -r d; write d/y; Commit fails after the removal;
+    write z; a write below the file d/y (refused); Commit fails again leaving d/ and a torn z;
+    cp d e; Commit; rm z; mkdir e/w; Commit fails with the removal applied; the retry. *)
+Example C06_history_ex :
+  let r := [([[100]], D); ([[100]; [120]], F [49])] in
+  let hs := [HOp (ORemoveAll [100]); HOp (OWriteFile [100;47;121] [50]); HFault [];
+             HOp (OWriteFile [122] [51]); HOp (OWriteFile [100;47;121;47;107] [57]);
+             HFault [([[100]], D); ([[122]], F [])];
+             HOp (OCopy [100] [101]); HCommit; HOp (ORemove [122]); HOp (OMkdirAll [101;47;119]);
+             HFault [([[101]], D); ([[100]], D); ([[100]; [121]], F [50]); ([[101]; [121]], F [50])]] in
+  hist_ok (new_cache r) hs = true /\
+  succ_ops (new_cache r) hs = [ORemoveAll [100]; OWriteFile [100;47;121] [50]; OWriteFile [122] [51];
+                               OCopy [100] [101]; ORemove [122]; OMkdirAll [101;47;119]] /\
+  direct_run r (succ_ops (new_cache r) hs) =
+    [([[100]], D); ([[100]; [121]], F [50]); ([[101]], D); ([[101]; [121]], F [50]); ([[101]; [119]], D)] /\
+  cR (fst (c_commit (hrun (new_cache r) hs))) =
+    [([[101]], D); ([[100]], D); ([[100]; [121]], F [50]); ([[101]; [121]], F [50]); ([[101]; [119]], D)].
+Proof. vm_compute. repeat split. Qed.
+
+(** Every position: in the state after rm -r d; write d/y; write z, the Commit interrupted after the
+    removal and the send of z alone has left a [partial_remote]. *)
+Example C06_every_position_ex :
+  let c := run_cache (new_cache [([[100]], D); ([[100]; [120]], F [49])])
+             [COp (ORemoveAll [100]); COp (OWriteFile [100;47;121] [50]); COp (OWriteFile [122] [51])] in
+  incl [[[100]]] (cT c) /\ (forall p e, In (p, e) [([[122]], F [51])] -> In (p, e) (cB c)) /\
+  materialise (apply_tombs (cR c) (cT c)) [([[122]], F [51])] = Some [([[122]], F [51])].
+Proof.
+  cbv zeta. split; [|split].
+  - vm_compute. intros a [<-|[]]. left. reflexivity.
+  - intros p e [H|[]]. inversion H; subst. vm_compute. right. right. left. reflexivity.
+  - vm_compute. reflexivity.
+Qed.
